@@ -321,6 +321,10 @@ def check_age_test(prog, rep):
     good = []
     for n in cands:
         cons = "age test"
+        wraps = [x for x in ast.walk(n.ast) if isinstance(x, ast.Attribute) and x.attr in ("seconds", "microseconds") and not isinstance(parent(x), ast.keyword)]
+        if wraps:
+            rep.violation("AGE", fi.short, cons, f"`{norm(n.ast)}` reads timedelta.{wraps[0].attr}, which wraps at one day (it is the seconds *component*, not the total): after an idle period of N days plus a few seconds the age looks small and the write stays buffered", fi.loc(n.ast), expected="(now - last_commit) > timedelta(seconds=d)  or  .total_seconds() > d", found=norm(n.ast))
+            continue
         try:
             lit = literal(n.ast, Env(fi, prog))
         except NonAffine as e:
